@@ -111,22 +111,39 @@ def install():
             # make the left operand an order-controlled set: its operator then returns an order-controlled result
             if type(left) in (set, frozenset) or (isinstance(left, views) and isinstance(right, (set, frozenset) + views)):
                 frame_stack_write(frame, -2, NondetFrozenSet(left) if type(left) is frozenset else NondetSet(left))
+                if isinstance(right, views):      # set.__sub__(view) is NotImplemented; give it a set with the same members
+                    frame_stack_write(frame, -1, set(right))
 
     core.register_opcode_patch(HashOrderInterceptor())
-
-    def make_set(*a):
-        return NondetSet(*a)
-
-    def make_frozenset(*a):
-        return NondetFrozenSet(*a)
 
     import d42  # noqa: F401
     import d42.generation  # noqa: F401
     import d42.substitution  # noqa: F401
     import d42.representation  # noqa: F401
     import d42.custom_type  # noqa: F401
-    for name, mod in list(sys.modules.items()):
-        if name == "d42" or name.startswith("d42."):
-            if not hasattr(mod, "set") or mod.__dict__.get("set") is set:
+
+
+_PATCHED = []
+
+
+def activate(order):
+    """Switch the model on (only C17 harnesses do): the names set / frozenset of every d42 module produce
+    order-controlled sets for the duration.  Everywhere else CrossHair's own handling of set(...) stays in place."""
+    import sys
+    ORDER[:] = list(order)
+    POS[0] = 0
+    if not _PATCHED:
+        for name, mod in list(sys.modules.items()):
+            if (name == "d42" or name.startswith("d42.")) and "set" not in mod.__dict__ and "frozenset" not in mod.__dict__:
                 mod.__dict__["set"] = NondetSet
                 mod.__dict__["frozenset"] = NondetFrozenSet
+                _PATCHED.append(mod)
+    ACTIVE[0] = True
+
+
+def deactivate():
+    ACTIVE[0] = False
+    for mod in _PATCHED:
+        mod.__dict__.pop("set", None)
+        mod.__dict__.pop("frozenset", None)
+    del _PATCHED[:]
